@@ -259,6 +259,14 @@ def part2(rep, prog, ix):
     from .frame_common import diagnostic_offsets
     DIAG[0] = diagnostic_offsets(prog)
     res, obs, stats = run_regions(fs, regions=['topo.qlt', 'quick.qlt'])
+    # the icon arm fetches the platform's icon only when the record holds neither a cached icon nor a recorded size: every
+    # cell of the dispatch matrix (the Reset that drops the cache above all) must leave "no cached icon => size 0" behind,
+    # otherwise the icon is unretrievable from then on although each single response is still well formed
+    from .frame_common import icon_invariant
+    rep.rule('R08.6', 'every cell of the dispatch matrix keeps "no cached icon => recorded icon size 0", the condition under which the icon is (re)fetched', floor=9)
+    fs_all = FrameSetup(prog, mtu_ok=True)
+    res_all, _o2, _s2 = run_regions(fs_all)
+    icon_invariant(rep, 'R08.6', fs_all, res_all)
     # "exactly the platform's bytes": nothing the response is built from may be uninitialised scratch memory, e.g. the part of
     # a getter's destination the getter did not write
     from .dispatch import fail_obligations
